@@ -79,7 +79,7 @@ impl Model {
 }
 
 struct Fail(String);
-macro_rules! check { ($c:expr, $($a:tt)*) => { if !($c) { return Err(Fail(format!($($a)*))); } } }
+macro_rules! check { ($t:expr, $c:expr, $($a:tt)*) => { if !($c) { return Err(Fail(format!("[{}] {}", $t, format!($($a)*)))); } } }
 
 fn run<S: std::hash::BuildHasher + Default + Clone>(ops: &[Op], max0: usize, cap0: usize) -> Result<(), (usize, String)> {
     let e0 = entry_size(&0u16, &Val { heap: 0, id: 0 });
@@ -88,28 +88,68 @@ fn run<S: std::hash::BuildHasher + Default + Clone>(ops: &[Op], max0: usize, cap
     let mut peak = 0usize;
     let mut requested = cap0;
     for (step, op) in ops.iter().enumerate() {
+        // re-synchronise the oracle with the real cache: every step is judged on its own
+        m.list = c.iter().map(|(k, v)| (*k, v.clone(), entry_size(k, v))).collect();
+        m.max = c.max_size();
         let r = apply(&mut c, &mut m, op, &mut peak, &mut requested);
-        let r = r.and_then(|_| compare(&c, &m));
+        let r = r.and_then(|_| compare(&c, &m, op));
         if let Err(Fail(msg)) = r { return Err((step, msg)); }
     }
     Ok(())
 }
 
-fn compare<S: std::hash::BuildHasher>(c: &LruCache<u16, Val, S>, m: &Model) -> Result<(), Fail> {
-    check!(c.len() == m.list.len(), "len() = {} but the contracts' oracle holds {} entries", c.len(), m.list.len());
-    check!(c.current_size() == m.cur(), "current_size() = {} but the sum of entry sizes is {}", c.current_size(), m.cur());
-    check!(c.max_size() == m.max, "max_size() = {} expected {}", c.max_size(), m.max);
-    check!(c.current_size() <= c.max_size(), "memory bound exceeded: {} > {}", c.current_size(), c.max_size());
-    check!(c.is_empty() == m.list.is_empty(), "is_empty() disagrees");
+fn op_class(op: &Op) -> (&'static str, &'static str) {
+    // (tags for a wrong set of remaining entries, tags for a wrong order of the right entries)
+    match op {
+        Op::Insert(..) | Op::Fill(..) | Op::SetMaxSize(..) => ("C03", "C05"),
+        Op::Mutate(..) => ("C03 C11", "C05 C11"),
+        Op::TryInsert(..) => ("C10 C03", "C05 C10"),
+        Op::Retain(..) => ("C15", "C15 C05"),
+        Op::Clear | Op::Drain(..) => ("C02 C12", "C12"),
+        Op::CloneSwap => ("C14", "C14 C05"),
+        Op::Reserve(..) | Op::TryReserve(..) | Op::ShrinkTo(..) | Op::ShrinkToFit => ("C13 C04", "C13 C05"),
+        Op::Peek(..) | Op::PeekEntry(..) | Op::Contains(..) | Op::PeekEnds | Op::IterWord(..) => ("C19 C04", "C19 C05"),
+        _ => ("C04", "C05"),
+    }
+}
+
+/// after each operation: the real cache against the oracle's result for THIS operation (the oracle is re-synchronised
+/// with the real cache before every operation, so a divergence is attributed to the operation that caused it)
+fn compare<S: std::hash::BuildHasher>(c: &LruCache<u16, Val, S>, m: &Model, op: &Op) -> Result<(), Fail> {
+    let (t_members, t_order) = op_class(op);
+    // collect every failing aspect (each with its own property tags) instead of stopping at the first
+    let mut fails: Vec<(String, String)> = vec![];
+    macro_rules! soft { ($t:expr, $c:expr, $($a:tt)*) => { if !($c) { fails.push(($t.to_string(), format!($($a)*))); } } }
+    soft!("C01", c.current_size() <= c.max_size(), "memory bound exceeded: {} > {}", c.current_size(), c.max_size());
+    soft!("C01", c.max_size() == m.max, "max_size() = {} expected {}", c.max_size(), m.max);
     let fwd: Vec<(u16, Val)> = c.iter().map(|(k, v)| (*k, v.clone())).collect();
-    let exp: Vec<(u16, Val)> = m.list.iter().map(|e| (e.0, e.1.clone())).collect();
-    check!(fwd == exp, "iteration order {:?} differs from the order of last access {:?}", fwd.iter().map(|e| e.0).collect::<Vec<_>>(), exp.iter().map(|e| e.0).collect::<Vec<_>>());
+    let real_sum: usize = fwd.iter().map(|(k, v)| entry_size(k, v)).sum();
+    soft!("C02", c.current_size() == real_sum, "current_size() = {} but the sum of entry_size over the entries held is {}", c.current_size(), real_sum);
+    soft!("C02 C07", c.len() == fwd.len(), "len() = {} but iteration yields {} entries", c.len(), fwd.len());
+    soft!("C02", c.is_empty() == (c.current_size() == 0), "current_size() is 0 exactly when the cache is empty: violated");
     let mut bwd: Vec<(u16, Val)> = c.iter().rev().map(|(k, v)| (*k, v.clone())).collect();
     bwd.reverse();
-    check!(bwd == exp, "reverse iteration does not mirror forward iteration");
-    check!(c.capacity() >= c.len(), "capacity() {} < len() {}", c.capacity(), c.len());
-    for e in &m.list { check!(c.peek(&e.0) == Some(&e.1), "peek({}) does not return the stored value", e.0); }
-    Ok(())
+    soft!("C07 C12", bwd == fwd, "reverse iteration does not mirror forward iteration");
+    soft!("C13", c.capacity() >= c.len(), "capacity() {} < len() {}", c.capacity(), c.len());
+    for e in &fwd { soft!("C07 C04", c.peek(&e.0) == Some(&e.1), "peek({}) does not find the entry that iteration yields", e.0); }
+    let exp: Vec<(u16, Val)> = m.list.iter().map(|e| (e.0, e.1.clone())).collect();
+    let mut ks_real: Vec<u16> = fwd.iter().map(|e| e.0).collect(); ks_real.sort();
+    let mut ks_exp: Vec<u16> = exp.iter().map(|e| e.0).collect(); ks_exp.sort();
+    soft!(t_members, ks_real == ks_exp, "after {}: the cache holds keys {:?}, the contracts give {:?}", op.to_json(), ks_real, ks_exp);
+    // order and values are judged on the keys both sides hold, so that a wrong set of entries (reported above) is not
+    // reported a second time as a wrong order or a wrong value
+    let common_real: Vec<(u16, Val)> = fwd.iter().filter(|e| ks_exp.contains(&e.0)).cloned().collect();
+    let common_exp: Vec<(u16, Val)> = exp.iter().filter(|e| ks_real.contains(&e.0)).cloned().collect();
+    soft!(t_order, common_real.iter().map(|e| e.0).collect::<Vec<_>>() == common_exp.iter().map(|e| e.0).collect::<Vec<_>>(),
+           "after {}: recency order {:?} differs from the order of last access {:?}", op.to_json(), common_real.iter().map(|e| e.0).collect::<Vec<_>>(), common_exp.iter().map(|e| e.0).collect::<Vec<_>>());
+    let mut vr = common_real.clone(); vr.sort_by_key(|e| e.0);
+    let mut ve = common_exp.clone(); ve.sort_by_key(|e| e.0);
+    soft!(if matches!(op, Op::Mutate(..)) { "C11" } else { "C04" }, vr == ve, "after {}: a stored value differs from the value most recently stored for its key", op.to_json());
+    if fails.is_empty() { return Ok(()); }
+    let mut tags: Vec<&str> = vec![];
+    for (t, _) in &fails { for x in t.split(' ') { if !tags.contains(&x) { tags.push(x); } } }
+    let msgs: Vec<String> = fails.iter().map(|(t, m)| format!("({}) {}", t, m)).collect();
+    Err(Fail(format!("[{}] {}", tags.join(" "), msgs.join("; "))))
 }
 
 fn apply<S: std::hash::BuildHasher + Clone>(c: &mut LruCache<u16, Val, S>, m: &mut Model, op: &Op, peak: &mut usize, requested: &mut usize) -> Result<(), Fail> {
@@ -123,15 +163,15 @@ fn apply<S: std::hash::BuildHasher + Clone>(c: &mut LruCache<u16, Val, S>, m: &m
             let r = c.insert(k, v.clone());
             if es > m.max {
                 match r { Err(InsertError::EntryTooLarge { key, value, entry_size, max_size }) =>
-                    check!(key == k && value == v && entry_size == es && max_size == m.max, "insert: EntryTooLarge carries wrong data"),
-                    _ => return Err(Fail(format!("insert({}, heap {}): entry_size {} > max_size {} but no EntryTooLarge", k, heap, es, m.max))) }
+                    check!("C10", key == k && value == v && entry_size == es && max_size == m.max, "insert: EntryTooLarge carries wrong data"),
+                    _ => return Err(Fail(format!("[C10] insert({}, heap {}): entry_size {} > max_size {} but no EntryTooLarge", k, heap, es, m.max))) }
             } else {
                 let old = m.pos(k).map(|i| m.list.remove(i).1);
                 let target = m.max - es;
                 m.evict(target);
                 m.list.push((k, v, es));
-                match r { Ok(prev) => check!(prev == old, "insert({}): returned {:?}, expected the replaced value {:?}", k, prev, old),
-                    Err(_) => return Err(Fail(format!("insert({}) failed although entry_size {} <= max_size {}", k, es, m.max))) }
+                match r { Ok(prev) => check!("C04", prev == old, "insert({}): returned {:?}, expected the replaced value {:?}", k, prev, old),
+                    Err(_) => return Err(Fail(format!("[C10] insert({}) failed although entry_size {} <= max_size {}", k, es, m.max))) }
             }
         }
         Op::TryInsert(k, heap) => {
@@ -141,80 +181,80 @@ fn apply<S: std::hash::BuildHasher + Clone>(c: &mut LruCache<u16, Val, S>, m: &m
             let free = m.max - m.cur();
             let r = c.try_insert(k, v.clone());
             if es > m.max {
-                check!(matches!(r, Err(TryInsertError::EntryTooLarge { entry_size, max_size, .. }) if entry_size == es && max_size == m.max), "try_insert: expected EntryTooLarge({}, {}), got {:?}", es, m.max, r);
+                check!("C10", matches!(r, Err(TryInsertError::EntryTooLarge { entry_size, max_size, .. }) if entry_size == es && max_size == m.max), "try_insert: expected EntryTooLarge({}, {}), got {:?}", es, m.max, r);
             } else if es > free {
-                check!(matches!(r, Err(TryInsertError::WouldEjectLru { entry_size, free_memory, .. }) if entry_size == es && free_memory == free), "try_insert: expected WouldEjectLru({}, {}), got {:?}", es, free, r);
+                check!("C10", matches!(r, Err(TryInsertError::WouldEjectLru { entry_size, free_memory, .. }) if entry_size == es && free_memory == free), "try_insert: expected WouldEjectLru({}, {}), got {:?}", es, free, r);
             } else if m.pos(k).is_some() {
-                check!(matches!(r, Err(TryInsertError::OccupiedEntry { .. })), "try_insert: expected OccupiedEntry, got {:?}", r);
+                check!("C10", matches!(r, Err(TryInsertError::OccupiedEntry { .. })), "try_insert: expected OccupiedEntry, got {:?}", r);
             } else {
-                check!(r.is_ok(), "try_insert: expected Ok, got {:?}", r);
+                check!("C10", r.is_ok(), "try_insert: expected Ok, got {:?}", r);
                 m.list.push((k, v.clone(), es));
             }
-            if let Err(e) = r { check!(e.key() == &k && e.value() == &v, "try_insert error does not return the very pair"); }
+            if let Err(e) = r { check!("C10 C06", e.key() == &k && e.value() == &v, "try_insert error does not return the very pair"); }
         }
         Op::Get(k) | Op::GetEntry(k) | Op::Touch(k) => {
             let exp = m.pos(k).map(|i| { let e = m.list.remove(i); m.list.push(e.clone()); e.1 });
-            match op { Op::Get(_) => { let r = c.get(&k).cloned(); check!(r == exp, "get({}) = {:?}, expected {:?}", k, r, exp); }
-                Op::GetEntry(_) => { let r = c.get_entry(&k).map(|(a, b)| (*a, b.clone())); check!(r == exp.clone().map(|v| (k, v)), "get_entry({}) wrong", k); }
+            match op { Op::Get(_) => { let r = c.get(&k).cloned(); check!("C04", r == exp, "get({}) = {:?}, expected {:?}", k, r, exp); }
+                Op::GetEntry(_) => { let r = c.get_entry(&k).map(|(a, b)| (*a, b.clone())); check!("C04", r == exp.clone().map(|v| (k, v)), "get_entry({}) wrong", k); }
                 _ => c.touch(&k) }
         }
-        Op::Peek(k) => { let exp = m.pos(k).map(|i| m.list[i].1.clone()); check!(c.peek(&k).cloned() == exp, "peek({}) wrong", k); }
-        Op::PeekEntry(k) => { let exp = m.pos(k).map(|i| (k, m.list[i].1.clone())); check!(c.peek_entry(&k).map(|(a, b)| (*a, b.clone())) == exp, "peek_entry({}) wrong", k); }
-        Op::Contains(k) => check!(c.contains(&k) == m.pos(k).is_some(), "contains({}) wrong", k),
-        Op::Remove(k) => { let exp = m.pos(k).map(|i| m.list.remove(i).1); let r = c.remove(&k); check!(r == exp, "remove({}) = {:?}, expected {:?}", k, r, exp); }
-        Op::RemoveEntry(k) => { let exp = m.pos(k).map(|i| { let e = m.list.remove(i); (e.0, e.1) }); check!(c.remove_entry(&k) == exp, "remove_entry({}) wrong", k); }
-        Op::RemoveLru => { let exp = if m.list.is_empty() { None } else { let e = m.list.remove(0); Some((e.0, e.1)) }; check!(c.remove_lru() == exp, "remove_lru wrong"); }
-        Op::RemoveMru => { let exp = m.list.pop().map(|e| (e.0, e.1)); check!(c.remove_mru() == exp, "remove_mru wrong"); }
+        Op::Peek(k) => { let exp = m.pos(k).map(|i| m.list[i].1.clone()); check!("C04", c.peek(&k).cloned() == exp, "peek({}) wrong", k); }
+        Op::PeekEntry(k) => { let exp = m.pos(k).map(|i| (k, m.list[i].1.clone())); check!("C04", c.peek_entry(&k).map(|(a, b)| (*a, b.clone())) == exp, "peek_entry({}) wrong", k); }
+        Op::Contains(k) => check!("C04", c.contains(&k) == m.pos(k).is_some(), "contains({}) wrong", k),
+        Op::Remove(k) => { let exp = m.pos(k).map(|i| m.list.remove(i).1); let r = c.remove(&k); check!("C04 C06", r == exp, "remove({}) = {:?}, expected {:?}", k, r, exp); }
+        Op::RemoveEntry(k) => { let exp = m.pos(k).map(|i| { let e = m.list.remove(i); (e.0, e.1) }); check!("C04 C06", c.remove_entry(&k) == exp, "remove_entry({}) wrong", k); }
+        Op::RemoveLru => { let exp = if m.list.is_empty() { None } else { let e = m.list.remove(0); Some((e.0, e.1)) }; check!("C05 C04", c.remove_lru() == exp, "remove_lru wrong"); }
+        Op::RemoveMru => { let exp = m.list.pop().map(|e| (e.0, e.1)); check!("C05 C04", c.remove_mru() == exp, "remove_mru wrong"); }
         Op::GetLru => { let exp = if m.list.is_empty() { None } else { let e = m.list.remove(0); m.list.push(e.clone()); Some((e.0, e.1)) };
-            check!(c.get_lru().map(|(a, b)| (*a, b.clone())) == exp, "get_lru wrong"); }
+            check!("C05 C04", c.get_lru().map(|(a, b)| (*a, b.clone())) == exp, "get_lru wrong"); }
         Op::PeekEnds => {
-            check!(c.peek_lru().map(|(a, b)| (*a, b.clone())) == m.list.first().map(|e| (e.0, e.1.clone())), "peek_lru wrong");
-            check!(c.peek_mru().map(|(a, b)| (*a, b.clone())) == m.list.last().map(|e| (e.0, e.1.clone())), "peek_mru wrong");
+            check!("C05", c.peek_lru().map(|(a, b)| (*a, b.clone())) == m.list.first().map(|e| (e.0, e.1.clone())), "peek_lru wrong");
+            check!("C05", c.peek_mru().map(|(a, b)| (*a, b.clone())) == m.list.last().map(|e| (e.0, e.1.clone())), "peek_mru wrong");
         }
         Op::SetMaxSize(x) => { c.set_max_size(x); m.evict(x); m.max = x; }
         Op::Mutate(k, newheap) => {
             let mut called = false;
             let r = c.mutate(&k, |v| { called = true; v.heap = newheap; 77u8 });
             match m.pos(k) {
-                None => { check!(!called, "mutate called the closure for an absent key"); check!(matches!(r, Ok(None)), "mutate on an absent key must return Ok(None)"); }
+                None => { check!("C11", !called, "mutate called the closure for an absent key"); check!("C11", matches!(r, Ok(None)), "mutate on an absent key must return Ok(None)"); }
                 Some(i) => {
-                    check!(called, "mutate did not call the closure for a present key");
+                    check!("C11", called, "mutate did not call the closure for a present key");
                     let mut e = m.list.remove(i);
                     let old = e.2;
                     e.1.heap = newheap;
                     e.2 = m.esize(newheap);
                     if e.2 > m.max {
                         match r { Err(MutateError::EntryTooLarge { key, value, old_entry_size, new_entry_size, max_size }) =>
-                            check!(key == k && value == e.1 && old_entry_size == old && new_entry_size == e.2 && max_size == m.max, "mutate: EntryTooLarge carries wrong data"),
-                            _ => return Err(Fail(format!("mutate({}): grown entry {} > max_size {} but no EntryTooLarge", k, e.2, m.max))) }
+                            check!("C11", key == k && value == e.1 && old_entry_size == old && new_entry_size == e.2 && max_size == m.max, "mutate: EntryTooLarge carries wrong data"),
+                            _ => return Err(Fail(format!("[C11] mutate({}): grown entry {} > max_size {} but no EntryTooLarge", k, e.2, m.max))) }
                     } else {
                         m.list.push(e);
                         let mx = m.max;
                         m.evict(mx);
-                        check!(matches!(r, Ok(Some(77))), "mutate must forward the closure's result");
+                        check!("C11", matches!(r, Ok(Some(77))), "mutate must forward the closure's result");
                     }
                 }
             }
         }
-        Op::Reserve(n) => { c.reserve(n); check!(c.capacity() >= len_before + n, "reserve({}): capacity {} < len + additional", n, c.capacity()); *requested = (*requested).max(len_before + n); }
-        Op::TryReserve(n) => { let r = c.try_reserve(n); if r.is_ok() { check!(c.capacity() >= len_before + n, "try_reserve: capacity too small"); *requested = (*requested).max(len_before + n); } else { check!(c.capacity() == cap_before, "failed try_reserve changed the capacity"); } }
-        Op::ShrinkTo(n) => { c.shrink_to(n); check!(c.capacity() <= cap_before, "shrink_to({}) raised the capacity from {} to {}", n, cap_before, c.capacity());
-            check!(c.capacity() >= len_before.max(n) || c.capacity() == cap_before, "shrink_to({}) left capacity {} below max(len, min)", n, c.capacity()); }
-        Op::ShrinkToFit => { c.shrink_to_fit(); check!(c.capacity() <= cap_before, "shrink_to_fit raised the capacity from {} to {}", cap_before, c.capacity()); check!(c.capacity() >= len_before, "shrink_to_fit below len"); }
+        Op::Reserve(n) => { c.reserve(n); check!("C13", c.capacity() >= len_before + n, "reserve({}): capacity {} < len + additional", n, c.capacity()); *requested = (*requested).max(len_before + n); }
+        Op::TryReserve(n) => { let r = c.try_reserve(n); if r.is_ok() { check!("C13", c.capacity() >= len_before + n, "try_reserve: capacity too small"); *requested = (*requested).max(len_before + n); } else { check!("C13", c.capacity() == cap_before, "failed try_reserve changed the capacity"); } }
+        Op::ShrinkTo(n) => { c.shrink_to(n); check!("C13", c.capacity() <= cap_before, "shrink_to({}) raised the capacity from {} to {}", n, cap_before, c.capacity());
+            check!("C13", c.capacity() >= len_before.max(n) || c.capacity() == cap_before, "shrink_to({}) left capacity {} below max(len, min)", n, c.capacity()); }
+        Op::ShrinkToFit => { c.shrink_to_fit(); check!("C13", c.capacity() <= cap_before, "shrink_to_fit raised the capacity from {} to {}", cap_before, c.capacity()); check!("C13", c.capacity() >= len_before, "shrink_to_fit below len"); }
         Op::Clear => { c.clear(); m.list.clear(); }
         Op::Retain(mask) => {
             let mut seen = vec![];
             c.retain(|k, v| { seen.push((*k, v.clone())); (mask >> (*k % 16)) & 1 == 1 });
             let exp: Vec<(u16, Val)> = m.list.iter().map(|e| (e.0, e.1.clone())).collect();
-            check!(seen == exp, "retain did not visit each entry once in LRU order");
+            check!("C15", seen == exp, "retain did not visit each entry once in LRU order");
             m.list.retain(|e| (mask >> (e.0 % 16)) & 1 == 1);
         }
-        Op::CloneSwap => { let d = c.clone(); check!(d.capacity() >= c.capacity(), "clone has a smaller capacity"); *c = d; }
+        Op::CloneSwap => { let d = c.clone(); check!("C14", d.capacity() >= c.capacity(), "clone has a smaller capacity"); *c = d; }
         Op::Drain(a, b) => {
             let mut exp: Vec<(u16, Val)> = m.list.iter().map(|e| (e.0, e.1.clone())).collect();
             { let mut d = c.drain();
-              for _ in 0..a { let x = d.next(); let y = if exp.is_empty() { None } else { Some(exp.remove(0)) }; check!(x == y, "drain.next() wrong"); }
-              for _ in 0..b { let x = d.next_back(); let y = exp.pop(); check!(x == y, "drain.next_back() wrong"); } }
+              for _ in 0..a { let x = d.next(); let y = if exp.is_empty() { None } else { Some(exp.remove(0)) }; check!("C12", x == y, "drain.next() wrong"); }
+              for _ in 0..b { let x = d.next_back(); let y = exp.pop(); check!("C12", x == y, "drain.next_back() wrong"); } }
             m.list.clear();
         }
         Op::IterWord(kind, bits, n) => {
@@ -227,7 +267,7 @@ fn apply<S: std::hash::BuildHasher + Clone>(c: &mut LruCache<u16, Val, S>, m: &m
                     let front = (bits >> s) & 1 == 0;
                     let got = if front { it.next() } else { it.next_back() };
                     let want = if lo < hi { if front { lo += 1; Some(exp[lo - 1].clone()) } else { hi -= 1; Some(exp[hi].clone()) } } else { None };
-                    check!(got.map($proj) == want.clone().map(|w| $proj((&w.0, &w.1))), "iterator kind {} step {} ({}) yielded the wrong item", kind, s, if front { "next" } else { "next_back" });
+                    check!("C12", got.map($proj) == want.clone().map(|w| $proj((&w.0, &w.1))), "iterator kind {} step {} ({}) yielded the wrong item", kind, s, if front { "next" } else { "next_back" });
                 }
             }}; }
             match kind % 6 {
@@ -238,15 +278,15 @@ fn apply<S: std::hash::BuildHasher + Clone>(c: &mut LruCache<u16, Val, S>, m: &m
                 3 => { let d = c.clone(); let mut it = d.into_iter();
                     for s in 0..n { let front = (bits >> s) & 1 == 0; let got = if front { it.next() } else { it.next_back() };
                         let want = if lo < hi { if front { lo += 1; Some(exp[lo - 1].clone()) } else { hi -= 1; Some(exp[hi].clone()) } } else { None };
-                        check!(got == want, "into_iter step {} ({}) yielded the wrong item", s, if front { "next" } else { "next_back" }); } }
+                        check!("C12", got == want, "into_iter step {} ({}) yielded the wrong item", s, if front { "next" } else { "next_back" }); } }
                 4 => { let d = c.clone(); let mut it = d.into_keys();
                     for s in 0..n { let front = (bits >> s) & 1 == 0; let got = if front { it.next() } else { it.next_back() };
                         let want = if lo < hi { if front { lo += 1; Some(exp[lo - 1].0) } else { hi -= 1; Some(exp[hi].0) } } else { None };
-                        check!(got == want, "into_keys step {} ({}) yielded the wrong item", s, if front { "next" } else { "next_back" }); } }
+                        check!("C12", got == want, "into_keys step {} ({}) yielded the wrong item", s, if front { "next" } else { "next_back" }); } }
                 _ => { let d = c.clone(); let mut it = d.into_values();
                     for s in 0..n { let front = (bits >> s) & 1 == 0; let got = if front { it.next() } else { it.next_back() };
                         let want = if lo < hi { if front { lo += 1; Some(exp[lo - 1].1.clone()) } else { hi -= 1; Some(exp[hi].1.clone()) } } else { None };
-                        check!(got == want, "into_values step {} ({}) yielded the wrong item", s, if front { "next" } else { "next_back" }); } }
+                        check!("C12", got == want, "into_values step {} ({}) yielded the wrong item", s, if front { "next" } else { "next_back" }); } }
             }
         }
         Op::Fill(start, n) => {
@@ -254,7 +294,7 @@ fn apply<S: std::hash::BuildHasher + Clone>(c: &mut LruCache<u16, Val, S>, m: &m
                 let id = m.next_id; m.next_id += 1;
                 let v = Val { heap: 0, id };
                 let es = m.esize(0);
-                if es <= m.max { let old = m.pos(k).map(|i| m.list.remove(i).1); let t = m.max - es; m.evict(t); m.list.push((k, v.clone(), es)); let r = c.insert(k, v); check!(r == Ok(old), "fill: insert wrong"); }
+                if es <= m.max { let old = m.pos(k).map(|i| m.list.remove(i).1); let t = m.max - es; m.evict(t); m.list.push((k, v.clone(), es)); let r = c.insert(k, v); check!("C04", r == Ok(old), "fill: insert wrong"); }
             }
         }
     }
@@ -262,7 +302,7 @@ fn apply<S: std::hash::BuildHasher + Clone>(c: &mut LruCache<u16, Val, S>, m: &m
     *peak = (*peak).max(c.len());
     if !matches!(op, Op::CloneSwap) {
         let bound = (4 * *peak).max(16).max(cap_for_upper(*requested));
-        check!(c.capacity() < bound.max(1) || c.capacity() <= cap_before, "capacity {} exceeds max(4 x peak len {}, 16) and what was requested ({})", c.capacity(), *peak, *requested);
+        check!("C13", c.capacity() < bound.max(1) || c.capacity() <= cap_before, "capacity {} exceeds max(4 x peak len {}, 16) and what was requested ({})", c.capacity(), *peak, *requested);
     }
     Ok(())
 }
@@ -331,6 +371,9 @@ fn main() {
     let seed: u64 = args.get(2).and_then(|s| s.parse().ok()).unwrap_or(1);
     let budget: u64 = args.get(3).and_then(|s| s.parse().ok()).unwrap_or(3000);
     let focus = args.get(4).cloned().unwrap_or_default();
+    // only failures that speak about this property count ("" = any)
+    let prop = args.get(5).cloned().unwrap_or_default();
+    let relevant = |msg: &str| -> bool { prop.is_empty() || msg.split(']').next().map(|t| t.trim_start_matches('[').split(' ').any(|x| x == prop)).unwrap_or(false) };
     let e0 = entry_size(&0u16, &Val { heap: 0, id: 0 });
     let mut rng = Rng(seed.wrapping_mul(0x9E3779B97F4A7C15) | 1);
     let t0 = Instant::now();
@@ -342,18 +385,19 @@ fn main() {
     ];
     for (ops, max0, cap0, constant) in targeted {
         tried += 1;
-        if let Err((step, msg)) = run_any(&ops, max0, cap0, constant) { print_witness(&ops[..=step.min(ops.len() - 1)], max0, cap0, constant, step, &msg); std::process::exit(1); }
+        if let Err((step, msg)) = run_any(&ops, max0, cap0, constant) { if relevant(&msg) { print_witness(&ops[..=step.min(ops.len() - 1)], max0, cap0, constant, step, &msg); std::process::exit(1); } }
     }
     while t0.elapsed() < Duration::from_millis(budget) {
         let (ops, max0, cap0, constant) = gen(&mut rng, &focus, e0);
         tried += 1;
         if let Err((step, msg)) = run_any(&ops, max0, cap0, constant) {
+            if !relevant(&msg) { continue; }
             // shrink: drop operations that are not needed
             let mut cur: Vec<Op> = ops[..=step.min(ops.len() - 1)].to_vec();
             let mut i = 0;
             while i < cur.len() {
                 let mut t = cur.clone(); t.remove(i);
-                if !t.is_empty() && run_any(&t, max0, cap0, constant).is_err() { cur = t; } else { i += 1; }
+                if !t.is_empty() && matches!(run_any(&t, max0, cap0, constant), Err((_, ref m2)) if relevant(m2)) { cur = t; } else { i += 1; }
             }
             let (s2, m2) = match run_any(&cur, max0, cap0, constant) { Err(x) => x, Ok(()) => (step, msg.clone()) };
             print_witness(&cur, max0, cap0, constant, s2, &m2);
